@@ -17,6 +17,19 @@ def single_feature_world(wj, i):
     return w
 
 
+def shallow(rng, wj, sph, pos):
+    """same surface position, a depth inside the common shallow range"""
+    from wbgen import cart_point
+    import math
+    d = float(round(rng.uniform(1e3, 1e5)))
+    if sph:
+        r = math.sqrt(pos[0] ** 2 + pos[1] ** 2 + pos[2] ** 2)
+        radius = wj.get("coordinate system", {}).get("radius", 6371000.0)
+        k = (radius - d) / r
+        return (pos[0] * k, pos[1] * k, pos[2] * k), d
+    return (pos[0], pos[1], 1000e3 - d), d
+
+
 def run(chk):
     chk.rule = ("stacks of 1-6 overlapping/disjoint features with random operations; for every query the covering set is "
                 "determined with single-feature worlds (tag probe); then (a) the world with all non-covering features deleted, "
@@ -35,10 +48,21 @@ def run(chk):
         modelled = rng.random() < 0.6
         wj, sph = (area_world if modelled else any_world)(rng, nfeat=rng.randint(1, 6), cross=False)
         wj.pop("force surface temperature", None)
+        stacked = rng.random() < 0.6
+        if stacked:
+            # a real stack: every feature starts at the surface, so that shallow points are covered several times
+            for f in wj["features"]:
+                f.pop("min depth", None)
+                if f["model"] == "plume":
+                    f["max depth"] = max(f.get("max depth", 0), f["cross section depths"][-1])
+                elif "max depth" in f:
+                    f["max depth"] = max(f["max depth"], 1.5e5)
         n = len(wj["features"])
         slot = cs.add_world(wj, model=modelled)
         singles = [cs.add_world(single_feature_world(wj, i), model=False) for i in range(n)]
         queries = [query3d(rng, wj, sph) for _ in range(8)]
+        if stacked:
+            queries = [(pos, d) if i % 2 else shallow(rng, wj, sph, pos) for i, (pos, d) in enumerate(queries)]
         # stage 1 answers needed to build stage 2 worlds: coverage is probed in a first harness run
         plan.append({"wj": wj, "sph": sph, "slot": slot, "singles": singles, "queries": queries,
                      "full": [cs.p3(slot, pos, d, ALL) for pos, d in queries],
